@@ -103,10 +103,11 @@ Proof. intros H. unfold restart. apply (asorted_map_key (fun k f => mkTable f (d
 (* ------------------------------------------------------------------ *)
 (* one request of the disk engine, by cases (the only unfolding of dstep) *)
 (* ------------------------------------------------------------------ *)
-(* the requests that touch the definition files or re-create a directory *)
+(* the requests that touch the definition files or remove a directory (all the others, DropRowRange
+   with delete-all included, are single atomic leveldb writes: no crash point) *)
 Definition disk_special (r : breq) : bool :=
   match r with
-  | BCreateTable _ _ _ | BDeleteTable _ | BModifyFamilies _ _ | BDropRowRange _ true _ => true
+  | BCreateTable _ _ _ | BDeleteTable _ | BModifyFamilies _ _ => true
   | _ => false
   end.
 
@@ -114,6 +115,7 @@ Inductive dstep_spec (d : dstate) (c : call) : dstate * bresp * list (bytes * im
 | DS_fail rsp : disk_special (cl_req c) = true -> br_code rsp <> cOK -> step (ds_mem d) c = (ds_mem d, rsp) ->
     dstep_spec d c (d, rsp, [])
 | DS_create parent tid fams rsp : cl_req c = BCreateTable parent tid fams ->
+    valid_tid tid = true -> valid_parent parent = true ->
     let name := table_name parent tid in let tf := make_fams fams in
     alookup name (ds_mem d) = None ->
     step (ds_mem d) c = (set_table (ds_mem d) name (mkTable tf []), rsp) -> br_code rsp = cOK ->
@@ -134,11 +136,6 @@ Inductive dstep_spec (d : dstate) (c : call) : dstate * bresp * list (bytes * im
     let d1 := mkDState mem' (ds_meta d) (ds_orphans d) in
     dstep_spec d c (mkDState mem' (ainsert name (t_fams t') (ds_meta d)) (ds_orphans d), rsp,
                     [(s_meta_tmp, image_of d1); (s_meta_renamed, set_meta (image_of d1) name (t_fams t'))])
-| DS_clear name pfx t rsp : cl_req c = BDropRowRange name true pfx -> alookup name (ds_mem d) = Some t ->
-    let mem' := set_table (ds_mem d) name (mkTable (t_fams t) []) in
-    step (ds_mem d) c = (mem', rsp) -> br_code rsp = cOK ->
-    dstep_spec d c (mkDState mem' (ds_meta d) (ds_orphans d), rsp,
-                    [(s_clear_closed, image_of d); (s_db_removed, set_dir (image_of d) name None)])
 | DS_other : disk_special (cl_req c) = false ->
     dstep_spec d c (mkDState (fst (step (ds_mem d) c)) (ds_meta d) (ds_orphans d), snd (step (ds_mem d) c), []).
 
@@ -160,12 +157,12 @@ Proof.
     unfold dstep. cbn [cl_req]. fold (table_name parent tid).
     destruct (step (ds_mem d) _) as [mem' rsp] eqn:E. cbn [fst snd] in Hfa.
     destruct (N.eqb (br_code rsp) cOK) eqn:Ec.
-    + apply N.eqb_eq in Ec. pose proof E as E0. unfold step in E. cbn [cl_req] in E. fold (table_name parent tid) in E.
-      destruct (alookup (table_name parent tid) (ds_mem d)) eqn:El.
-      * injection E as <- <-. discriminate.
-      * fold (make_fams fams) in E. injection E as <- <-.
-        rewrite !alookup_set_table_same. cbn [t_fams].
-        eapply (DS_create d _ parent tid fams); eauto.
+    + apply N.eqb_eq in Ec. pose proof E as E0.
+      assert (Hok : br_code (snd (step (ds_mem d) (mkCall (BCreateTable parent tid fams) now coins))) = cOK)
+        by (rewrite E; exact Ec).
+      destruct (create_ok_inv _ _ _ _ _ _ Hok) as [Vt [Vp [El E1]]]. rewrite E1 in E. injection E as <- <-.
+      rewrite !alookup_set_table_same. cbn [t_fams].
+      eapply (DS_create d _ parent tid fams); eauto.
     + apply N.eqb_neq in Ec. rewrite (Hfa Ec) in E. apply DS_fail; auto.
   - (* delete *)
     unfold dstep. cbn [cl_req]. destruct (step (ds_mem d) _) as [mem' rsp] eqn:E. cbn [fst snd] in Hfa.
@@ -186,22 +183,11 @@ Proof.
         -- injection E as <- <-. cbn [fail br_code] in Ec. apply N.eqb_neq in Ev. contradiction.
       * injection E as <- <-. discriminate.
     + apply N.eqb_neq in Ec. rewrite (Hfa Ec) in E. apply DS_fail; auto.
-  - (* drop row range *)
-    destruct all.
-    + unfold dstep. cbn [cl_req]. destruct (step (ds_mem d) _) as [mem' rsp] eqn:E. cbn [fst snd] in Hfa.
-      destruct (N.eqb (br_code rsp) cOK) eqn:Ec.
-      * apply N.eqb_eq in Ec. pose proof E as E0. unfold step in E. cbn [cl_req] in E.
-        destruct (alookup name (ds_mem d)) as [t|] eqn:El.
-        -- injection E as <- <-. eapply (DS_clear d _ name prefix t); eauto.
-        -- injection E as <- <-. discriminate.
-      * apply N.eqb_neq in Ec. rewrite (Hfa Ec) in E. apply DS_fail; auto.
-    + pose proof (DS_other d (mkCall (BDropRowRange name false prefix) now coins) eq_refl) as G.
-      unfold dstep; cbn [cl_req] in *. destruct (step (ds_mem d) _) as [mem' rsp]. exact G.
 Qed.
 
 Ltac dstep_cases d c :=
-  destruct (dstep_spec_ok d c) as [rsp Hsp Hc E|parent tid fams rsp R name tf Hl E Hc im0 imc im1 im2 im3|name t rsp R Hl E Hc
-                                  |name mods t rsp R Hl t' mem' E Hc d1|name pfx t rsp R Hl mem' E Hc|Hsp].
+  destruct (dstep_spec_ok d c) as [rsp Hsp Hc E|parent tid fams rsp R Vt Vp name tf Hl E Hc im0 imc im1 im2 im3|name t rsp R Hl E Hc
+                                  |name mods t rsp R Hl t' mem' E Hc d1|Hsp].
 
 (* ------------------------------------------------------------------ *)
 (* requests other than create / delete / modify keep every table's families *)
@@ -311,10 +297,6 @@ Proof.
     + intros n t0. rewrite !alookup_aremove; auto. destruct (beqb n name); auto. apply Hdj.
   - rewrite E in Hw. cbn [fst] in Hw. split; cbn [ds_mem ds_meta ds_orphans]; auto using ainsert_sorted.
     + intros n. unfold mem', set_table. rewrite !alookup_ainsert. destruct (beqb n name); auto.
-    + intros n t0. unfold mem', set_table. rewrite alookup_ainsert. destruct (beqb n name) eqn:En; [|apply Hdj].
-      apply beqb_eq in En. subst. intros _. eauto.
-  - rewrite E in Hw. cbn [fst] in Hw. split; cbn [ds_mem ds_meta ds_orphans]; auto.
-    + intros n. rewrite Hme. symmetry. unfold mem'. eapply set_table_keeps_fams; eauto.
     + intros n t0. unfold mem', set_table. rewrite alookup_ainsert. destruct (beqb n name) eqn:En; [|apply Hdj].
       apply beqb_eq in En. subst. intros _. eauto.
   - pose proof (fun n => step_keeps_fams (ds_mem d) c n (special_not_schema _ Hsp)) as Hk.
@@ -638,11 +620,6 @@ Proof.
       * right. intros n. rewrite H1. unfold mem', set_table. rewrite alookup_ainsert. destruct (beqb n name); auto.
         fold t' in Hfams. rewrite <- Hfams, table_eta. reflexivity.
     + right. apply (restart_image_of _ Hi').
-  - (* clear *)
-    destruct Hin as [Hin|[Hin|[]]]; injection Hin as _ <-.
-    + left. exact Hb.
-    + right. intros n. rewrite alookup_restart_set_dir by auto. rewrite Hb. cbn [image_of im_meta].
-      rewrite (di_meta _ Hi), Hl. unfold mem', set_table. rewrite alookup_ainsert. reflexivity.
 Qed.
 
 (* every image at an instrumented crash point restarts to the state before or the state after
@@ -669,12 +646,17 @@ Corollary row_requests_no_crash_points : forall d now coins,
   /\ (forall tbl entries, snd (dstep d (mkCall (BMutateRows tbl entries) now coins)) = [])
   /\ (forall tbl key p tm fm, snd (dstep d (mkCall (BCheckAndMutate tbl key p tm fm) now coins)) = [])
   /\ (forall tbl key rules, snd (dstep d (mkCall (BReadModifyWrite tbl key rules) now coins)) = [])
-  /\ (forall tbl pfx, snd (dstep d (mkCall (BDropRowRange tbl false pfx) now coins)) = [])
+  /\ (forall tbl all pfx, snd (dstep d (mkCall (BDropRowRange tbl all pfx) now coins)) = [])
   /\ (forall tbl, snd (dstep d (mkCall (BRunGC tbl) now coins)) = [])
   /\ (forall tbl keys ranges f limit, snd (dstep d (mkCall (BReadRows tbl keys ranges f limit) now coins)) = []).
 Proof.
   intros d now coins. repeat split; intros; apply no_crash_points; reflexivity.
 Qed.
+
+(* DropRowRange with delete-all is ONE atomic leveldb batch: no crash point, whatever its outcome *)
+Theorem clear_has_no_crash_point : forall d name pfx now coins,
+  snd (dstep d (mkCall (BDropRowRange name true pfx) now coins)) = [].
+Proof. intros d name pfx now coins. apply no_crash_points. reflexivity. Qed.
 
 (* the crash points a request passes, by name, in code order *)
 Theorem crash_point_names : forall d c,
@@ -684,7 +666,6 @@ Theorem crash_point_names : forall d c,
   | BCreateTable _ _ _ => [s_create_cleaned; s_meta_tmp; s_meta_renamed; s_db_removed]
   | BDeleteTable _ => [s_delete_undefined]
   | BModifyFamilies _ _ => [s_meta_tmp; s_meta_renamed]
-  | BDropRowRange _ true _ => [s_clear_closed; s_db_removed]
   | _ => []
   end.
 Proof.
@@ -693,8 +674,7 @@ Proof.
   - rewrite Hc, R. reflexivity.
   - rewrite Hc, R. reflexivity.
   - rewrite Hc, R. reflexivity.
-  - rewrite Hc, R. reflexivity.
-  - destruct (negb _); auto. destruct (cl_req c) as [| | | | |? [|] ?| | | | | | |]; try discriminate; reflexivity.
+  - destruct (negb _); auto. destruct (cl_req c); try discriminate; reflexivity.
 Qed.
 
 (* ---- the guard is exact ---- *)
@@ -799,7 +779,6 @@ Proof.
     assert (H1 : image_wf (image_of d1)).
     { apply image_of_wf_gen; unfold d1; cbn [ds_mem ds_meta ds_orphans]; try apply Hi. apply (di_mem _ Hi'). apply inv_meta_fams; auto. }
     destruct Hin as [Hin|[Hin|[]]]; injection Hin as _ <-; auto. apply set_meta_wf; auto. apply Hw'.
-  - destruct Hin as [Hin|[Hin|[]]]; injection Hin as _ <-; auto. apply set_dir_wf; auto.
 Qed.
 
 Inductive dreach : dstate -> Prop :=
@@ -909,7 +888,6 @@ Proof.
   - assert (Hne : x <> name) by (intros ->; congruence).
     destruct Hin as [Hin|[Hin|[]]]; injection Hin as _ <-; cbn [image_of set_meta im_meta ds_meta]; auto.
     rewrite alookup_ainsert_other; auto.
-  - destruct Hin as [Hin|[Hin|[]]]; injection Hin as _ <-; cbn [image_of set_dir im_meta]; auto.
 Qed.
 
 Lemma reach_nc_absent name d0 d : dreach d0 -> alookup name (ds_mem d0) = None -> reach_nc name d0 d ->
@@ -970,24 +948,28 @@ Proof.
   intros c2 nm2 im2 Hnc Hin2. rewrite alookup_restart, (crash_image_meta_absent d2 c2 nm2 im2 name0 Hi2 Hl2 Hnc Hin2). reflexivity.
 Qed.
 
-(* a table created while absent (in particular re-created after a delete) restarts empty, at the
-   boundary and at every crash point of the create (absent or empty, never with old rows); after
-   that it holds exactly what the sequential server holds *)
+(* a successfully created table (valid names, absent before; in particular re-created after a
+   delete) restarts empty, at the boundary and at every crash point of the create (absent or empty,
+   never with old rows); after that it holds exactly what the sequential server holds *)
 Theorem recreated_table_restarts_empty : forall d parent tid fams now coins, dreach d ->
   let name := table_name parent tid in
-  alookup name (ds_mem d) = None ->
   let c := mkCall (BCreateTable parent tid fams) now coins in
+  br_code (snd (fst (dstep d c))) = cOK ->
   let d' := fst (fst (dstep d c)) in
-  alookup name (restart (image_of d')) = Some (mkTable (make_fams fams) [])
+  valid_tid tid = true /\ valid_parent parent = true /\ alookup name (ds_mem d) = None
+  /\ alookup name (restart (image_of d')) = Some (mkTable (make_fams fams) [])
   /\ ds_mem d' = set_table (ds_mem d) name (mkTable (make_fams fams) [])
   /\ (forall nm im, In (nm, im) (snd (dstep d c)) ->
         alookup name (restart im) = None \/ alookup name (restart im) = Some (mkTable (make_fams fams) []))
   /\ (forall cs, restart (image_of (fst (drun d' cs))) = fst (run (ds_mem d') cs)).
 Proof.
-  intros d parent tid fams now coins Hr name0 Hl c d'. pose proof (DR_step d c Hr) as Hr'. fold d' in Hr'.
+  intros d parent tid fams now coins Hr name0 c Hok d'. pose proof (DR_step d c Hr) as Hr'. fold d' in Hr'.
   pose proof (dreach_inv d Hr) as Hi. pose proof (dreach_inv d' Hr') as Hi'.
+  destruct (dstep_mem d c) as [Gm Gr]. rewrite Gr in Hok. unfold c in Hok.
+  destruct (create_ok_inv _ _ _ _ _ _ Hok) as [Vt [Vp [Hl Es]]]. fold name0 in Hl.
+  split; [exact Vt|]. split; [exact Vp|]. split; [exact Hl|].
   assert (Hm : ds_mem d' = set_table (ds_mem d) name0 (mkTable (make_fams fams) [])).
-  { unfold d'. destruct (dstep_mem d c) as [G _]. rewrite G. unfold c. rewrite create_new; auto. }
+  { unfold d'. rewrite Gm. unfold c. rewrite Es. reflexivity. }
   assert (Hg : no_effective_drop (ds_mem d) c) by (apply other_no_effective_drop; intros ? ?; discriminate).
   split; [rewrite restart_image_of_eq, Hm by auto; apply alookup_set_table_same|]. split; [exact Hm|]. split.
   - intros nm im Hin. destruct (crash_atomic_mem d c Hi Hg nm im Hin) as [G|G].
@@ -1019,19 +1001,14 @@ Qed.
 Theorem cleared_table_restarts_empty : forall d name pfx now coins t, dreach d -> alookup name (ds_mem d) = Some t ->
   let c := mkCall (BDropRowRange name true pfx) now coins in
   alookup name (restart (image_of (fst (fst (dstep d c))))) = Some (mkTable (t_fams t) [])
-  /\ forall nm im, In (nm, im) (snd (dstep d c)) ->
-       alookup name (restart im) = Some t \/ alookup name (restart im) = Some (mkTable (t_fams t) []).
+  /\ snd (dstep d c) = [].
 Proof.
-  intros d name0 pfx now coins t0 Hr Hl0 c. pose proof (dreach_inv d Hr) as Hi.
+  intros d name0 pfx now coins t0 Hr Hl0 c.
   assert (Hs : fst (step (ds_mem d) c) = set_table (ds_mem d) name0 (mkTable (t_fams t0) [])).
   { unfold c. rewrite (drop_all _ _ pfx now coins _ Hl0). reflexivity. }
   split.
   - rewrite restart_after_step by auto. rewrite Hs. apply alookup_set_table_same.
-  - intros nm im Hin.
-    assert (Hg : no_effective_drop (ds_mem d) c) by (apply other_no_effective_drop; intros ? ?; discriminate).
-    destruct (crash_atomic_mem d c Hi Hg nm im Hin) as [G|G]; rewrite G.
-    + left. exact Hl0.
-    + right. destruct (dstep_mem d c) as [G1 _]. rewrite G1, Hs. apply alookup_set_table_same.
+  - apply clear_has_no_crash_point.
 Qed.
 
 Lemma apply_mutations_app tf now : forall ms fs ms',
@@ -1091,8 +1068,8 @@ Qed.
 (* ------------------------------------------------------------------ *)
 (* refutations of the unguarded statements, and concrete runs          *)
 (* ------------------------------------------------------------------ *)
-Definition ex_name : bytes := table_name [112%N] [116%N].                                   (* p/tables/t *)
-Definition ex_create (fams : list (bytes * option gcrule)) : call := mkCall (BCreateTable [112%N] [116%N] fams) 0%Z [].
+Definition ex_name : bytes := table_name [112; 114; 111; 106; 101; 99; 116; 115; 47; 112; 47; 105; 110; 115; 116; 97; 110; 99; 101; 115; 47; 105]%N [116%N].                                   (* projects/p/instances/i/tables/t *)
+Definition ex_create (fams : list (bytes * option gcrule)) : call := mkCall (BCreateTable [112; 114; 111; 106; 101; 99; 116; 115; 47; 112; 47; 105; 110; 115; 116; 97; 110; 99; 101; 115; 47; 105]%N [116%N] fams) 0%Z [].
 Definition ex_put (k : N) (fam : N) : call :=
   mkCall (BMutateRow ex_name [k] [SetCell [fam] [113%N] 1000%Z [118%N]]) 0%Z [].
 Definition ex_fg : list (bytes * option gcrule) := [([102%N], None); ([103%N], Some (GMaxVersions 1))].
@@ -1289,7 +1266,7 @@ Definition ex_view (s : server) : list (bytes * (list bytes * list bytes)) :=
 Example ex_prog_acks :
   map (fun r => (br_code (fst r), map fst (snd r))) (snd (drun init_dstate ex_prog))
   = [ (cOK, [s_create_cleaned; s_meta_tmp; s_meta_renamed; s_db_removed]); (cOK, []); (cOK, []);
-      (cOK, [s_clear_closed; s_db_removed]); (cOK, []); (cOK, [s_meta_tmp; s_meta_renamed]); (cOK, [s_delete_undefined]);
+      (cOK, []); (cOK, []); (cOK, [s_meta_tmp; s_meta_renamed]); (cOK, [s_delete_undefined]);
       (cOK, [s_create_cleaned; s_meta_tmp; s_meta_renamed; s_db_removed]); (cOK, []) ].
 Proof. vm_compute. reflexivity. Qed.
 
@@ -1313,7 +1290,7 @@ Example ex_prog_crash_points :
   map (fun r => map (fun p => ex_view (restart (snd p))) (snd r)) (snd (drun init_dstate ex_prog))
   = [ [ []; []; [(ex_name, ([[102%N]; [103%N]], []))]; [(ex_name, ([[102%N]; [103%N]], []))] ];
       []; [];
-      [ [(ex_name, ([[102%N]; [103%N]], [[97%N]; [98%N]]))]; [(ex_name, ([[102%N]; [103%N]], []))] ];
+      [];
       [];
       [ [(ex_name, ([[102%N]; [103%N]], [[99%N]]))]; [(ex_name, ([[102%N]; [103%N]; [104%N]], [[99%N]]))] ];
       [ [] ];
@@ -1420,4 +1397,88 @@ Corollary dcheck_next_segment_dreach : forall names cs obs crash d i, dreach d -
 Proof.
   intros names cs obs crash d i H r. destruct (dcheck_segment_dreach names cs obs d i [] H (or_introl eq_refl)) as [H1 H2].
   apply next_boot_last_of; auto.
+Qed.
+
+(* ------------------------------------------------------------------ *)
+(* table names on the disk: only valid names are ever registered       *)
+(* ------------------------------------------------------------------ *)
+Lemma restart_keys im : map fst (restart im) = map fst (im_meta im).
+Proof. unfold restart. rewrite map_map. reflexivity. Qed.
+
+Lemma aremove_keys {V} k (l : list (bytes * V)) n : In n (map fst (aremove k l)) -> In n (map fst l).
+Proof.
+  intros H. apply in_map_iff in H. destruct H as [kv [<- Hin]]. apply in_map. eapply aremove_in; eauto.
+Qed.
+
+Lemma meta_keys_live d : disk_inv d -> forall n, In n (map fst (ds_meta d)) -> In n (map fst (ds_mem d)).
+Proof.
+  intros Hi n H. apply in_keys_alookup in H. destruct H as [f Hf]. rewrite (di_meta _ Hi) in Hf.
+  apply in_keys_alookup. destruct (alookup n (ds_mem d)) as [t|]; [eauto|discriminate].
+Qed.
+
+(* the definition files at every crash point of a request carry names of live tables or the
+   valid name being created *)
+Lemma crash_image_names_valid d c nm im : disk_inv d -> names_valid (ds_mem d) ->
+  In (nm, im) (snd (dstep d c)) -> forall n, In n (map fst (im_meta im)) -> valid_table_name n.
+Proof.
+  intros Hi Hv Hin n Hn.
+  assert (Hmeta : forall x, In x (map fst (ds_meta d)) -> valid_table_name x).
+  { intros x Hx. apply Hv. apply meta_keys_live; auto. }
+  dstep_cases d c; cbn [fst snd] in Hin; try contradiction.
+  - (* create *)
+    assert (Hnew : valid_table_name name) by (exists parent, tid; auto).
+    destruct Hin as [Hin|[Hin|[Hin|[Hin|[]]]]]; injection Hin as _ <-;
+      unfold im3, im2, im1, imc, im0 in Hn; cbn [set_dir set_meta im_meta image_of] in Hn;
+      try (apply Hmeta; exact Hn); apply in_keys_ainsert in Hn; destruct Hn as [->|Hn]; auto.
+  - (* delete *)
+    destruct Hin as [Hin|[]]. injection Hin as _ <-. cbn [unset_meta im_meta image_of] in Hn.
+    apply Hmeta. eapply aremove_keys; eauto.
+  - (* modify *)
+    destruct Hin as [Hin|[Hin|[]]]; injection Hin as _ <-; unfold d1 in Hn; cbn [set_meta im_meta image_of ds_meta] in Hn.
+    + apply Hmeta; exact Hn.
+    + apply in_keys_ainsert in Hn. destruct Hn as [->|Hn]; [|apply Hmeta; exact Hn].
+      apply Hv. apply in_keys_alookup. eauto.
+Qed.
+
+(* every table of every state of the disk engine - after any requests, restarts and kills inside
+   requests - has a valid name *)
+Theorem dreach_names_valid : forall d, dreach d -> names_valid (ds_mem d).
+Proof.
+  intros d H. induction H as [|d c H IH|d H IH|d c nm im H IH Hin].
+  - intros n Hn. destruct Hn.
+  - destruct (dstep_mem d c) as [G _]. rewrite G. apply step_names_valid. exact IH.
+  - cbn [boot ds_mem]. rewrite restart_image_of_eq by (apply dreach_inv; exact H). exact IH.
+  - cbn [boot ds_mem]. intros n Hn. rewrite restart_keys in Hn.
+    eapply crash_image_names_valid; eauto. apply dreach_inv; exact H.
+Qed.
+
+(* ... so two different tables never have nested directories, whatever happened before *)
+Corollary dreach_tables_not_nested : forall d n1 n2 t1 t2, dreach d ->
+  alookup n1 (ds_mem d) = Some t1 -> alookup n2 (ds_mem d) = Some t2 -> n1 <> n2 ->
+  has_prefix (n2 ++ s_slash1) (n1 ++ s_slash1) = false.
+Proof.
+  intros d n1 n2 t1 t2 H H1 H2 Hne. pose proof (dreach_names_valid d H) as Hv.
+  apply valid_names_disjoint_dirs; auto; apply Hv; apply in_keys_alookup; eauto.
+Qed.
+
+(* the definition files too *)
+Corollary dreach_meta_names_valid : forall d n, dreach d -> In n (map fst (ds_meta d)) -> valid_table_name n.
+Proof.
+  intros d n H Hn. apply (dreach_names_valid d H). apply meta_keys_live; auto. apply dreach_inv; exact H.
+Qed.
+
+(* [boot] of an ARBITRARY image does not have the property (a server started on a directory it did
+   not write serves whatever definition files it finds): the theorem is about the images the
+   engine itself produces *)
+Example boot_arbitrary_image_names_refuted :
+  let im := mkImage [([46%N; 46%N], [])] [] in
+  map fst (ds_mem (boot im)) = [[46%N; 46%N]] /\ valid_table_nameb [46%N; 46%N] = false.
+Proof. vm_compute. auto. Qed.
+
+Example dreach_names_valid_nonvacuous :
+  let d := fst (drun init_dstate [ex_create ex_fg; ex_put 97 102]) in
+  dreach d /\ map fst (ds_mem d) = [ex_name] /\ valid_table_nameb ex_name = true.
+Proof.
+  split; [|vm_compute; auto].
+  apply drun_dreach. apply DR_init.
 Qed.
